@@ -4,6 +4,10 @@ CONSTANTS
   Mults = {1, 2, 3}
   MaxSize = 4096
   MaxCount = 1025
+  SzThresholds = {32768, 65536}
+  SzMults = {1, 2, 3, 4}
+  CoreW = 1100
+  CoreMax = 1100
   Rot = 3
 SPECIFICATION Spec
 INVARIANTS Covered Emit
